@@ -570,6 +570,8 @@ func rulesC12(c *Ctx) {
 	c.ruleOutputVerifier("R5", false)
 	c.ruleHelperAgreement("R6", false)
 	c.ruleKindDispatch("R7")
+	R.Rule("R8", "a secret is classified as 'not NUT-10' only by the JSON decoder: the parser rejects nothing before it hands the whole secret to json.Unmarshal", 1)
+	c.ruleSecretParserTotal("R8")
 }
 
 func rulesC13(c *Ctx) {
@@ -586,6 +588,7 @@ func rulesC13(c *Ctx) {
 	c.ruleExistentialScan("R4")
 	c.ruleSigAllOps("R4")
 	c.ruleKindDispatch("R4")
+	c.ruleSecretParserTotal("R4")
 }
 
 // ruleSigAllOps: R4.
@@ -879,4 +882,46 @@ func (c *Ctx) ruleKindDispatch(rule string) {
 			R.Check(rule, fk, k.name+" input <= its verifier succeeded", c.P.InstrPos(v), ok, "an input of kind "+k.name+" is accepted only when "+k.fn+"(input, parsed secret) returned nil", why)
 		}
 	}
+}
+
+// ruleSecretParserTotal: C12.R8 (shared C13). The mint treats "does not parse as a NUT-10 secret" as "plain
+// secret, no spending condition". The parser must therefore not be narrower than the JSON it claims to read:
+// every failure return of DeserializeSecret lies behind the json.Unmarshal of the complete secret text (a
+// pre-filter on raw bytes - first character, length, prefix - classifies locked secrets that JSON-based
+// wallets honour, e.g. with leading whitespace, as plain ones and skips every lock check).
+func (c *Ctx) ruleSecretParserTotal(rule string) {
+	R := c.R
+	f := c.fn(rule, fnDeser)
+	if f == nil {
+		return
+	}
+	fk := c.P.FuncKey(f)
+	o := c.P.OriginsOf(f)
+	whole := "P:" + f.Params[0].Name()
+	cut := NewCut()
+	n := 0
+	for _, g := range c.OpFuncs(f) {
+		for _, ci := range Calls(g) {
+			d := c.P.Describe(ci)
+			if d.Name == "encoding/json.Unmarshal" && len(d.Args) == 2 && c.CtxOf(ci).Of(d.Args[0]).String() == whole {
+				if in := c.siteIn(f, ci); in != nil {
+					cut.Barriers[in] = true
+					n++
+				}
+			}
+		}
+	}
+	if n == 0 {
+		R.Check(rule, fk, "whole secret handed to the JSON decoder", c.P.Pos(f.Pos()), false, "the parser decodes the complete secret text with json.Unmarshal", "no json.Unmarshal of the secret parameter")
+		return
+	}
+	ok, why := true, ""
+	for _, r := range Returns(f) {
+		if reach, path := ReachFromEntry(f, r, cut); reach {
+			ok = false
+			why = "return at " + c.P.InstrPos(r) + " is reachable before the secret was handed to the JSON decoder: " + c.P.PathString(path)
+		}
+	}
+	_ = o
+	R.Check(rule, fk, "no classification before the JSON decoder", c.P.Pos(f.Pos()), ok, "every return of the parser lies behind json.Unmarshal of the complete secret", why)
 }
